@@ -217,7 +217,7 @@ Proof.
       apply Fin; auto; rewrite ?Fq, ?Fr; auto.
     + (* x negative, y positive *)
       destruct (unm_val q0 _ Wq Vq') as (A1 & B1).
-      destruct (a mod b =? 0) eqn:Ez; cbn [negb].
+      destruct (rv =? 0) eqn:Ez; cbn [negb].
       * destruct (F2 ltac:(lia) ltac:(lia) ltac:(lia)) as (Fq & Fr).
         eexists; eexists; split; [reflexivity|]. split; [reflexivity|]. split; [reflexivity|].
         apply Fin; auto; rewrite ?Fq, ?Fr; auto. rewrite Vr'. f_equal. lia.
@@ -229,7 +229,7 @@ Proof.
         apply Fin; auto; rewrite ?Fq, ?Fr; auto.
     + (* x non-negative, y negative *)
       destruct (unm_val q0 _ Wq Vq') as (A1 & B1).
-      destruct (a mod b =? 0) eqn:Ez; cbn [negb].
+      destruct (rv =? 0) eqn:Ez; cbn [negb].
       * destruct (F4 ltac:(lia) ltac:(lia) ltac:(lia)) as (Fq & Fr).
         eexists; eexists; split; [reflexivity|]. split; [reflexivity|]. split; [reflexivity|].
         apply Fin; auto; rewrite ?Fq, ?Fr; auto. rewrite Vr'. f_equal. lia.
